@@ -286,6 +286,16 @@ type wcase struct {
 	Cl  int    `json:"cl"`
 }
 
+// flag bits of layRec.Fl
+const (
+	fCanon  = 1 << iota // the input struct is a protocol value (nothing set that is not on the wire)
+	fErrNil             // encode and decode worked in buffers of exactly the declared length
+	fRt                 // decoded struct == input struct (reflect.DeepEqual)
+	fRe                 // re-encoding the decoded struct gives the same bytes
+	fNeg                // decoded Go value < 0
+	fRest               // bytes outside the field are those of the base value
+)
+
 type layRec struct {
 	K      string           `json:"k"`
 	M      string           `json:"m"`
@@ -295,16 +305,13 @@ type layRec struct {
 	W      int              `json:"w"`
 	Off    int              `json:"off"`
 	Mode   string           `json:"mode"`
-	Vs     [][]int          `json:"vs"`     // input values of the field (big-endian byte strings)
-	Canon  []bool           `json:"canon"`  // the input struct is a protocol value (nothing set that is not on the wire)
-	Err    []string         `json:"err"`    // encode / decode in buffers of exactly the declared length
-	DecLen []int            `json:"declen"` // declared length reported by the code
-	Eb     [][]int          `json:"eb"`     // bytes of the encoding at [off, off+w)
-	Db     [][]int          `json:"db"`     // the decoded field
-	Neg    []bool           `json:"neg"`    // decoded Go value < 0
-	Rt     []bool           `json:"rt"`     // decoded struct == input struct (reflect.DeepEqual)
-	Re     []bool           `json:"re"`     // re-encoding the decoded struct gives the same bytes
-	Rest   []bool           `json:"rest"`   // bytes outside the field are those of the base value
+	Pre    []int            `json:"pre"`    // sweep: the values are pre ++ <<x>> for x = 0..255 (vs is left empty)
+	Vs     [][]int          `json:"vs"`     // classes: input values of the field (big-endian byte strings)
+	Fl     []int            `json:"fl"`     // per value: flag bits, see above
+	DecLen []int            `json:"declen"` // per value: declared length reported by the code
+	Eb     [][]int          `json:"eb"`     // per value: bytes of the encoding at [off, off+w)
+	Db     [][]int          `json:"db"`     // per value: the decoded field
+	Err0   string           `json:"err0"`   // first encode/decode error, if any
 	Vals0  map[string][]int `json:"vals0"`  // the complete first input value
 	Enc0   []int            `json:"enc0"`   // and its encoding
 	Canon0 bool             `json:"canon0"`
@@ -428,13 +435,16 @@ func baseStruct(a adaptor, m string, base string, ssds bool, rng *rand.Rand) any
 
 func runLay(c wcase, base string, rng *rand.Rand) *layRec {
 	a := adaptors[c.M]
-	r := &layRec{K: "lay", M: c.M, Ssds: c.Ssds, Base: base, F: c.F, W: c.W, Off: c.Off, Mode: c.Mode}
+	r := &layRec{K: "lay", M: c.M, Ssds: c.Ssds, Base: base, F: c.F, W: c.W, Off: c.Off, Mode: c.Mode,
+		Pre: append([]int{}, c.Pre...), Vs: [][]int{}, Err0: "nil"}
 	vs := c.Vs
 	if c.Mode == "sweep" {
 		vs = nil
 		for x := 0; x < 256; x++ {
 			vs = append(vs, append(append([]int{}, c.Pre...), x))
 		}
+	} else {
+		r.Vs = vs
 	}
 	bp := baseStruct(a, c.M, base, c.Ssds, rng)
 	pb := reflect.New(a.typ).Interface()
@@ -456,18 +466,16 @@ func runLay(c wcase, base string, rng *rand.Rand) *layRec {
 			q, msg = a.decodeExact(enc)
 			errs = msg
 		}
-		r.Vs = append(r.Vs, v)
-		r.Canon = append(r.Canon, true)
+		fl := fCanon
 		r.DecLen = append(r.DecLen, n)
-		r.Err = append(r.Err, errs)
 		if errs != "nil" {
+			if r.Err0 == "nil" {
+				r.Err0 = errs
+			}
 			r.Eb = append(r.Eb, []int{})
 			r.Db = append(r.Db, []int{})
-			r.Neg = append(r.Neg, false)
-			r.Rt = append(r.Rt, false)
-			r.Re = append(r.Re, false)
-			r.Rest = append(r.Rest, false)
 		} else {
+			fl |= fErrNil
 			qf := fieldByPath(reflect.ValueOf(q).Elem(), c.F)
 			eb := []int{}
 			if c.Off+c.W <= len(enc) {
@@ -475,10 +483,16 @@ func runLay(c wcase, base string, rng *rand.Rand) *layRec {
 			}
 			r.Eb = append(r.Eb, eb)
 			r.Db = append(r.Db, ints(beBytes(qf)))
-			r.Neg = append(r.Neg, isNeg(qf))
-			r.Rt = append(r.Rt, reflect.DeepEqual(q, input))
+			if isNeg(qf) {
+				fl |= fNeg
+			}
+			if reflect.DeepEqual(q, input) {
+				fl |= fRt
+			}
 			enc2, _, msg2 := a.encodeExact(q)
-			r.Re = append(r.Re, msg2 == "nil" && bytes.Equal(enc, enc2))
+			if msg2 == "nil" && bytes.Equal(enc, enc2) {
+				fl |= fRe
+			}
 			rest := true
 			for j := 0; j < len(enc) && j < len(baseEnc); j++ {
 				if (j < c.Off || j >= c.Off+c.W) && enc[j] != baseEnc[j] {
@@ -488,8 +502,11 @@ func runLay(c wcase, base string, rng *rand.Rand) *layRec {
 			if !(hasCond(c.M) && c.F == "FlagField") && len(enc) != len(baseEnc) {
 				rest = false
 			}
-			r.Rest = append(r.Rest, rest)
+			if rest {
+				fl |= fRest
+			}
 		}
+		r.Fl = append(r.Fl, fl)
 		if i == 0 {
 			r.Vals0 = valsOf(input)
 			r.Enc0 = ints(enc)
@@ -775,11 +792,7 @@ func TestC14Wire(t *testing.T) {
 			out.Emit(runLvm(c.X))
 			counts["lvm"]++
 		case "nts":
-			reps := 1
-			if vio.Thorough() {
-				reps = 2
-			}
-			for i := 0; i < reps; i++ {
+			for i := 0; i < 1; i++ {
 				pkt, in, key := ntsFromShape(c, rng)
 				out.Emit(runNts("gen", pkt, in, key, rng))
 				counts["nts"]++
@@ -1120,7 +1133,7 @@ func TestC14Ke(t *testing.T) {
 	// real-sized server messages: every single cut (thorough) / seeded cuts, and seeded multi-cuts
 	nreps := 1
 	if vio.Thorough() {
-		nreps = 3
+		nreps = 2
 	}
 	for rep := 0; rep < nreps; rep++ {
 		for _, nc := range []int{1, 2, 8} {
@@ -1129,7 +1142,7 @@ func TestC14Ke(t *testing.T) {
 			var plans [][]int
 			step := 37
 			if vio.Thorough() {
-				step = 5
+				step = 11
 			}
 			for k := 1 + rng.Intn(step); k < len(s); k += step {
 				plans = append(plans, []int{k})
